@@ -340,7 +340,20 @@ def run(ctx):
         tb = bytearray(64)
         put(tb, tm, 'family', fam); put(tb, tm, 'id.daddr', peer.ljust(16, b'\0')); put(tb, tm, 'saddr', me.ljust(16, b'\0'))
         put(tb, tm, 'id.proto', 50); put(tb, tm, 'mode', rng.choice([0, 1])); put(tb, tm, 'reqid', rng.randrange(2 ** 32))
-        attrs = struct.pack('<HH', 68, 5) + bytes(tb) + struct.pack('<HHBBBB', 6, 16, 0, 0, 0, 0)   # XFRMA_POLICY_TYPE padded to 8
+        # the attributes of a kernel event, each padded to 4 octets (NLA_ALIGN), in any order: the template among marks, interface
+        # ids, policy types and security contexts of assorted lengths
+        def nla(code, payload):
+            raw = struct.pack('<HH', 4 + len(payload), code) + payload
+            return raw + bytes(-len(raw) % 4)
+        others = [nla(16, bytes(2)),                                            # XFRMA_POLICY_TYPE: length 6
+                  nla(21, rng.rbytes(8)),                                       # XFRMA_MARK: length 12
+                  nla(31, rng.rbytes(4)),                                       # XFRMA_IF_ID: length 8
+                  nla(8, struct.pack('<HBBH', 8 + 5, 1, 1, 5) + rng.rbytes(5))]  # XFRMA_SEC_CTX with a 5-octet context: length 17
+        chosen_attrs = rng.sample(others, rng.randrange(0, len(others) + 1))
+        pos = rng.choice([0, 0, len(chosen_attrs), rng.randrange(0, len(chosen_attrs) + 1)])
+        chosen_attrs.insert(pos, nla(5, bytes(tb)))
+        res.count('event:acquire-attrs-before-tmpl:%d' % pos)
+        attrs = b''.join(chosen_attrs)
         total = 16 + 280 + len(attrs)
         msg = struct.pack('<IHHII', total, 0x17, 0, 0, 0) + bytes(buf) + attrs
         hdr, payload, at = X.Xfrm.parse_message(msg)
